@@ -142,7 +142,7 @@ def handle_kani_result(pid, grp, h, r, verdict, ev, kfs):
     cs = [c for c in r.get("covers", []) if c["status"] == "Satisfied"]
     ev["covers_satisfied"] += len(cs)
     ev["covers_total"] += len(r.get("covers", []))
-    rec = {"harness": h.name, "status": st, "checks": r.get("checks", 0), "failed": nfail,
+    rec = {"harness": h.name, "config": " ".join(grp.get("flags", [])), "status": st, "checks": r.get("checks", 0), "failed": nfail,
            "covers": "%d/%d" % (len(cs), len(r.get("covers", []))),
            "time_s": round(r.get("duration_s", 0), 1),
            "solver_s": round(float(stats.get("runtime_decision_procedure_s", 0) or 0), 2),
